@@ -38,6 +38,14 @@ P = {
    text="Every successful return of the built-in partitioners is proved to lie in [0, numPartitions) by an interval analysis relative to the symbolic partition count (round-robin cursor invariant computed from all stores; rand.Intn contract trusted); fallback only for nil keys, Reset before Write, consistency iff keyed; no self-fallback and options use their arguments; the producer's partition-list choice, zero-partition refusal, range check and error handling.",
    note="Equality with the Java client's hash and uniformity are not covered; rand.Intn(k) ∈ [0,k) is a trusted library contract.",
    technique="abstract interpretation (symbolic intervals) over SSA + guard/provenance rules"),
+ "C06": dict(claimed=True,
+   text="Decided on every path of offset_manager.go: monotone mark / downward-only reset with dirty and metadata set on the same path; dirty cleared only when position and metadata still equal what was committed; commit blocks built from the dirty partition's own position under its lock and acknowledged against the request's own block; request identity; ordered, bounded final flush in Close; NextOffset fallback; only ErrNoError acknowledges; all pom/om state accessed under its lock (lockset analysis with inferred entry requirements).",
+   note="That a later commit is actually issued (ticker/liveness) and coordinator behaviour are not decided.",
+   technique="SSA guard/path/provenance rules + interprocedural must-lockset analysis"),
+ "C07": dict(claimed=True,
+   text="Decided on every path of consumer_group.go: Setup before claims; cancel→wait→(once) Cleanup→final commit→heartbeat stop; single call sites of the handler methods; Consume always releases; claim goroutines counted, Done and cancel deferred; claim start offset provenance and the out-of-range fallback; identity fields of join/sync/heartbeat/leave/commit; sibling agreement of the join and sync switches, member-id reset when fenced, budget-guarded retries; group lock held for the whole session.",
+   note="Coverage of the log across sessions and commit-before-return under coordinator faults are behavioural and not covered.",
+   technique="SSA must-precede/must-follow queries, literal-field provenance, sibling-switch agreement, lockset"),
  "C01": dict(claimed=True,
    text="Structural necessary conditions of exactly-one-outcome decided on every CFG path of the producer pipeline (emit/Done pairing, no partially disposed batch, marker accounting, exactly-once routing of every partition set, retry budget guards, Wait-before-close, sync-producer expectation protocol). It is not a proof of the behaviour: cross-goroutine liveness of the retry loop is not covered.",
    note="Trusts go/ssa's model of the source; disposer functions are computed as a fixed point from the source, channel/field anchors are named in rules_c01.go.",
